@@ -229,6 +229,10 @@ fn get_dir_name() -> String {
 
 #[cfg(not(test))]
 fn get_dir_name() -> String {
+    #[cfg(feature = "verif")]
+    if let Some(dir) = crate::verif::data_dir() {
+        return dir;
+    }
     NUN_DBS_DIR.to_string()
 }
 
